@@ -495,15 +495,31 @@ def r7_queue_released(ctx, facts, cfg):
                any(y["k"] == "MemberExpr" and y.get("mname") == "next" for y in walk(x["rhs"]))]
         # what is deleted is the node that was current at the top of the iteration (held in a local before the advance)
         held = [d["did"] for x in walk(lp.get("body")) if x["k"] == "DeclStmt" for d in x.get("decls") or [] if isnode(d.get("init")) and var_ref(strip(d["init"], casts=True)) == cur[0]]
-        del_ok = len(dels) == 1 and (var_ref(strip(dels[0].get("arg") or dels[0].get("sub") or (dels[0].get("c") or [None])[0], casts=True)) in held)
+        delv = var_ref(strip(dels[0].get("arg") or dels[0].get("sub") or (dels[0].get("c") or [None])[0], casts=True)) if len(dels) == 1 else None
+        del_ok = len(dels) == 1 and delv in held
+        # second accepted idiom: next = current->next; delete current; current = next
+        nxt = [d["did"] for x in walk(lp.get("body")) if x["k"] == "DeclStmt" for d in x.get("decls") or [] if isnode(d.get("init")) and
+               any(y["k"] == "MemberExpr" and y.get("mname") == "next" and var_ref(strip(y.get("base"), casts=True)) == cur[0] for y in walk(d["init"]))]
+        adv2 = [x for x in walk(lp.get("body")) if x["k"] == "BinaryOperator" and x["op"] == "=" and var_ref(x["lhs"]) == cur[0] and var_ref(strip(x["rhs"], casts=True)) in nxt]
+        if len(dels) == 1 and delv == cur[0] and len(nxt) == 1 and len(adv2) == 1:
+            head2 = g.positions(lp.get("cond")) or []
+            np_ = g.pos_of(lambda n: isnode(n) and n.get("k") in ("Var", "DeclStmt") and (n.get("did") == nxt[0] or any(d.get("did") == nxt[0] for d in n.get("decls") or [])))
+            early2 = [x for x in walk(lp.get("body")) if x["k"] in ("BreakStmt", "ReturnStmt", "ContinueStmt")]
+            ok2 = while_nonnull and not early2 and bool(head2) and bool(np_) and not g.exists_path(npos(f, dels), np_, avoid_nodes=head2)
+            ctx.ob("C20.R7a", "UnboundedSPSCQueue::~UnboundedSPSCQueue:frees-every-node", ok2,
+                   "starting at the consumer's node the destructor continues while the node is not null, reads the node's successor before "
+                   "deleting the node, and deletes every node it visits (no early exit)", fn=f)
+            ok = None
         dp, ap = npos(f, dels), npos(f, adv)
         early = [x for x in walk(lp.get("body")) if x["k"] in ("BreakStmt", "ReturnStmt", "ContinueStmt")]
         head = g.positions(lp.get("cond")) or []
-        ok = while_nonnull and del_ok and len(adv) == 1 and not early and bool(head) and not g.exists_path(dp, ap, avoid_nodes=head) and \
-            all(any(var_ref(strip(y.get("base"), casts=True)) == cur[0] for y in walk(a_["rhs"]) if y["k"] == "MemberExpr" and y.get("mname") == "next") for a_ in adv)
-    ctx.ob("C20.R7a", "UnboundedSPSCQueue::~UnboundedSPSCQueue:frees-every-node", ok,
-           "starting at the consumer's node the destructor continues while the node is not null, reads the node's successor before deleting "
-           "the node, and deletes every node it visits (no early exit)", fn=f)
+        if ok is not None:
+            ok = while_nonnull and del_ok and len(adv) == 1 and not early and bool(head) and not g.exists_path(dp, ap, avoid_nodes=head) and \
+                all(any(var_ref(strip(y.get("base"), casts=True)) == cur[0] for y in walk(a_["rhs"]) if y["k"] == "MemberExpr" and y.get("mname") == "next") for a_ in adv)
+    if ok is not None:
+        ctx.ob("C20.R7a", "UnboundedSPSCQueue::~UnboundedSPSCQueue:frees-every-node", ok,
+               "starting at the consumer's node the destructor continues while the node is not null, reads the node's successor before deleting "
+               "the node, and deletes every node it visits (no early exit)", fn=f)
     bd = [f_ for f_ in facts.fns if f_.config == cfg and f_.rec.get("dtor") and short(f_.cls or "") == "quill::detail::BoundedSPSCQueueImpl"]
     for f_ in bd[:2]:
         fr = f_.calls(r"BoundedSPSCQueueImpl<.*>::_free_aligned$")
